@@ -73,6 +73,10 @@ inductive BOp where
   | plus | minus | star | slash | percent | shl | shr | amp | pipe | hat
   | modplus | modminus | modstar | modshl | satplus | satminus
   | ne | lt | le | eq | ge | gt | and | or
+  /-- the numeric built-in methods `l.min(no_more_than: r)`, `l.max(no_less_than: r)`,
+  `l.low_bits(n: r)`, `l.high_bits(n: r)` (lang/builtin: u8 … u64 only); the receiver is
+  the left operand, the argument the right one -/
+  | bmin | bmax | lowbits | highbits
 deriving DecidableEq, Repr, Inhabited
 
 def BOp.isCmp : BOp → Bool
@@ -126,7 +130,7 @@ def typeOf : Expr → Ty
 /-- the type a modular / saturating / shift operator works in -/
 def opBase (op : BOp) (l r : Expr) : Base :=
   match op with
-  | .shl | .shr | .modshl => (typeOf l).base
+  | .shl | .shr | .modshl | .bmin | .bmax | .lowbits | .highbits => (typeOf l).base
   | _ => if (typeOf l).base ≠ .ideal then (typeOf l).base else (typeOf r).base
 
 def b2i (b : Bool) : Int := if b then 1 else 0
@@ -165,6 +169,11 @@ def binSem (op : BOp) (tb : Base) (x y : Int) : Int :=
   | .gt => b2i (decide (x > y))
   | .and => b2i (x != 0 && y != 0)
   | .or => b2i (x != 0 || y != 0)
+  | .bmin => if x < y then x else y
+  | .bmax => if x > y then x else y
+  -- `x & ((1 << n) - 1)` and `x >> (bits - n)` (0 for n = 0) on unsigned `x`
+  | .lowbits => x % 2 ^ y.toNat
+  | .highbits => x / 2 ^ (tb.bits - y.toNat)
 
 /-- a storage location: a scalar variable, or element `k` of an array -/
 inductive Key where
@@ -214,6 +223,10 @@ def opMonitor (op : BOp) (tb : Base) (x y : Int) : Prop :=
   | .slash | .percent => y ≠ 0
   | .shl | .shr | .modshl => 0 ≤ y ∧ y < tb.bits
   | .amp | .pipe | .hat => 0 ≤ x ∧ 0 ≤ y
+  -- the argument of a built-in fits its parameter type: `n: u32[..= bits - 1]` for
+  -- low_bits / high_bits, the receiver's own base type for min / max
+  | .lowbits | .highbits => 0 ≤ y ∧ y < tb.bits
+  | .bmin | .bmax => inNatural tb y
   | _ => True
 
 /-- is the result of the operator range-checked against the node's type? (not for
